@@ -128,7 +128,9 @@ fn generic_history(ctx: &mut Ctx, s: &J, vals: &[J], hist: usize) {
         }
     }
     if let Some(m) = first_msg {
-        if hist % 4 == 0 {
+        // always where the datum is empty (message = header only: a reader that gets past a short header
+        // finds a complete datum), else for a quarter of the histories
+        if hist % 4 == 0 || m.len() == 10 {
             damage_events(ctx, s, &canon, &m, &schema, false);
         }
     }
